@@ -451,7 +451,7 @@ func init() {
 	run.Register(&run.Prop{
 		ID: "C19", Level: "fault_enumeration",
 		Rule: func(tier string) string {
-			return "two parts. (per ending, hook H1, deterministic) endings {EOF at a request boundary, EOF mid-request, reset at a boundary, reset mid-request, QUIT with a request behind it, malformed frame (peer keeps the connection open), write failure on the 1st/2nd/3rd write, write accepting n bytes then failing, rejected certificate (fabricated TLS state under a common-name rule, peer keeps the connection open), server Stop while idle, server Stop while parked in the middle of a request} (plus, on real sockets, Stop in the middle of a 16-goroutine connect storm: a connection that still answers after Stop returned or stays registered at a fixed point is a violation) x 0..4 preceding requests x whole/per-request delivery: the connection loop must return, the scripted socket must have been closed and Server.Conns() must not contain the connection. (churn) a child runs the bundled example server on real plain and TLS listeners; after a warm-up with one connection per ending the idle baseline {goroutines with a frame in redis.(*Server).serve/tlsServe/receive, len(Conns()), len(/proc/self/fd)} is sampled at a fixed point; then N cycles (1000 quick / 10000 thorough per case) with up to 1..32 connections in flight mix FIN, RST, half-close, mid-request, QUIT, malformed, TLS ok+FIN/RST/mid-request, TLS without certificate, TLS garbage, TLS abort after ClientHello, and a client that stops reading a large reply and resets. Verdict on the fixed point after everything is closed: a counter that stays above baseline and unchanged over the whole grace window is a leak; still moving = inconclusive"
+			return "two parts. (per ending, hook H1, deterministic) endings {EOF at a request boundary, EOF mid-request, reset at a boundary, reset mid-request, QUIT with a request behind it, malformed frame (peer keeps the connection open), write failure on the 1st/2nd/3rd write, write accepting n bytes then failing, rejected certificate (fabricated TLS state under a common-name rule, peer keeps the connection open), server Stop while idle, server Stop while parked in the middle of a request} (plus, on real plain and TLS sockets, QUIT and a malformed frame from a client that then keeps its socket open and silent: the client must see the end of stream and no connection goroutine may stay parked on it; and Stop in the middle of a 16-goroutine connect storm: a connection that still answers after Stop returned or stays registered at a fixed point is a violation) x 0..4 preceding requests x whole/per-request delivery: the connection loop must return, the scripted socket must have been closed and Server.Conns() must not contain the connection. (churn) a child runs the bundled example server on real plain and TLS listeners; after a warm-up with one connection per ending the idle baseline {goroutines with a frame in redis.(*Server).serve/tlsServe/receive, len(Conns()), len(/proc/self/fd)} is sampled at a fixed point; then N cycles (1000 quick / 10000 thorough per case) with up to 1..32 connections in flight mix FIN, RST, half-close, mid-request, QUIT, malformed, TLS ok+FIN/RST/mid-request, TLS without certificate, TLS garbage, TLS abort after ClientHello, and a client that stops reading a large reply and resets. Verdict on the fixed point after everything is closed: a counter that stays above baseline and unchanged over the whole grace window is a leak; still moving = inconclusive"
 		},
 		Exhaustive:  func(string) bool { return false },
 		Assumptions: []string{"stalled TLS handshakes are not part of the churn (they end only with the server's handshake deadline)"},
@@ -470,6 +470,9 @@ func init() {
 			}
 			if m := idx % stride; m > 0 && m%(stride/8) == 0 {
 				return c19stopStorm(idx)
+			}
+			if m := idx % stride; m > 0 && m%(stride/8) == 1 {
+				return c19endsButPeerStays(idx)
 			}
 			return c19ending(idx)
 		},
@@ -499,6 +502,100 @@ func busyServerGoroutines() int {
 		}
 	}
 	return busy
+}
+
+// c19endsButPeerStays: on real sockets (plain and TLS), the connection ends by QUIT or by a malformed frame while
+// the CLIENT KEEPS ITS SOCKET OPEN and sends nothing more. The server has to finish on its own: close the socket
+// (the client sees EOF), end the goroutine and leave the registry. Structural verdict: once the client has seen the
+// end of stream, a server goroutine with a receive frame that is parked waiting for network input can only be waiting
+// for this silent peer.
+func c19endsButPeerStays(idx int) run.Result {
+	var res run.Result
+	res.Idx = idx
+	how := []string{"quit", "malformed"}[(idx/2)%2]
+	overTLS := idx%2 == 1
+	res.Classes = []string{fmt.Sprintf("ending:%s-peer-keeps-socket-open:tls=%v", how, overTLS)}
+	res.Key = uint64(idx) ^ 0x9017
+	res.NonTrivial = true
+	desc := map[string]any{"ending": how, "tls": overTLS, "client": "keeps its socket open and sends nothing after the ending"}
+	s := newLcServer(map[bool]string{false: "plain", true: "tls"}[overTLS])
+	if s == nil {
+		res.Inconclusive = "pki unavailable"
+		return res
+	}
+	base, _ := serverGoroutines()
+	if err := s.srv.Start(); err != nil {
+		res.Inconclusive = "Start failed"
+		return res
+	}
+	defer func() {
+		s.srv.Stop()
+		waitGoroutines(base)
+	}()
+	c, err := s.dial(overTLS)
+	if err != nil {
+		res.Inconclusive = "client could not connect"
+		return res
+	}
+	defer c.c.Close()
+	if _, err := c.do("PING"); err != nil {
+		res.Inconclusive = "PING failed"
+		return res
+	}
+	c.c.SetDeadline(time.Now().Add(watchdog))
+	if how == "quit" {
+		if v, err := c.do("QUIT"); err != nil || !resp.Equal(v, resp.Status("OK")) {
+			res.Violate("C19:quit-reply", "QUIT is answered +OK", fmt.Sprint(v, err), desc)
+			return res
+		}
+	} else {
+		c.c.Write([]byte("*2\r\n$3\r\nGET\r\n!boom\r\n"))
+	}
+	// the client must see the end of stream (it does not close its own socket)
+	sawEOF := false
+	buf := make([]byte, 256)
+	for {
+		_, err := c.c.Read(buf)
+		if err != nil {
+			if ne, ok := err.(net.Error); !ok || !ne.Timeout() {
+				sawEOF = true
+			}
+			break
+		}
+	}
+	if !sawEOF {
+		res.Violate("C19:socket-not-closed:"+how+"-peer-keeps-socket-open", "the server closes the socket", "the client saw no end of stream within the watchdog after the "+how, desc)
+		return res
+	}
+	// fixed point: no server goroutine is working
+	deadline := time.Now().Add(watchdog)
+	for time.Now().Before(deadline) {
+		_, dump := serverGoroutines()
+		parkedOnPeer, working := 0, 0
+		for _, g := range strings.Split(dump, "\n\n") {
+			if !strings.Contains(g, ".receive(") {
+				continue
+			}
+			if strings.Contains(g, "[IO wait") {
+				parkedOnPeer++
+			} else {
+				working++
+			}
+		}
+		if parkedOnPeer == 0 && working == 0 {
+			break
+		}
+		if working == 0 && parkedOnPeer > 0 {
+			// nothing is running any more and a connection goroutine waits for input from the only client there is
+			res.Violate("C19:goroutine-not-terminated:"+how+"-peer-keeps-socket-open", "the connection's goroutine terminates and the connection disappears from the registry", fmt.Sprintf("after the %s the client saw the end of stream and keeps its socket open; the connection goroutine is parked waiting for network input (registry: %d entries)\n%s", how, len(s.srv.Conns()), clipS(dump, 1200)), desc)
+			return res
+		}
+		time.Sleep(5 * time.Millisecond)
+	}
+	if n := len(s.srv.Conns()); n != 0 {
+		res.Violate("C19:still-registered:"+how+"-peer-keeps-socket-open", "the connection disappears from the connection registry", fmt.Sprintf("registry has %d entries", n), desc)
+	}
+	return res
 }
 
 // c19stopStorm: the "server Stop" ending under concurrent connects (real sockets, free-running).
